@@ -58,7 +58,8 @@ class C10(vlib.Check):
                     b'{.1 }', b'{. }', b'{.  ', b'{&  ', b'{. +', b'{.+', b'{.-', b'{&-', b'{.+}', b'{.-}', b'{&+}']
         arglists = [[], ['i32:65'], ['s:41'], ['i32:-7', 'ull:18446744073709551615'], ['S:c3a9', 'b:1', 'c:-23'],
                     ['f64:400921fb54442d18'], ['i8:-128', 'u8:255', 'i16:-32768', 'u16:65535'], ['sn'], ['ss:.', 'wc:8364'],
-                    ['c32:128512', 'l:-9223372036854775808']]
+                    ['c32:128512', 'l:-9223372036854775808'], ['f64:54b249ad2594c37d'], ['i32:-2147483648', 'll:-9223372036854775808'],
+                    ['ull:4294967361']]
         for f in directed:
             for al in arglists:
                 yield fmt_case('string', 'default', f, al)
